@@ -72,12 +72,16 @@ def run(drv, tier, seed, scale):
         res = json.load(open(res_path, encoding="utf-8"))
     else:
         inconclusive.append("python worker wrote no result")
+    def printable(x):
+        return x.encode("utf-8", "backslashreplace").decode("utf-8")
+
     for sig, f in (res.get("findings") or {}).items():
-        violations.append(("py", {"sig": sig, "rule": sig.split("|")[0], "msg": f["msg"], "count": f["count"],
-                                  "inputs": [f["input"]], "inputs_hex": [f["input"].encode("utf-8").hex()]}))
+        violations.append(("py", {"sig": sig, "rule": sig.split("|")[0], "msg": printable(f["msg"]), "count": f["count"],
+                                  "inputs": [printable(f["input"])],
+                                  "inputs_hex": [f["input"].encode("utf-8", "surrogatepass").hex()]}))
     c = res.get("counters", {})
     summary = {"evaluations": c.get("inputs", 0), "distinct_nontrivial": res.get("distinct_nontrivial", 0),
-               "samples": res.get("samples", []), "counters": c, "tokens_checked": c.get("tokens_checked", 0),
+               "samples": [dict(x, input=printable(x.get("input", ""))) for x in res.get("samples", [])], "counters": c, "tokens_checked": c.get("tokens_checked", 0),
                "errors_checked": c.get("errors_checked", 0), "wall_s": res.get("wall_s"), "build": {"python": PY}}
     extra = {"enum_modules_identical": enum_same, "token_fields": res.get("token_fields"), "error_fields": res.get("error_fields"),
              "decoder_annotation": res.get("decoder"), "enum_sizes": res.get("enum_sizes"),
